@@ -97,6 +97,34 @@ def dclass(a):
     return "real"
 
 
+# ------------------------------------------------------------------ input variants
+ARRAY_VARIANTS = ["plain", "plain", "fortran", "strided", "negstride", "readonly", "plus0", "positional"]
+
+
+def as_variant(a, v):
+    """the same values, held by an object derived in another way"""
+    a = np.asarray(a)
+    if v == "fortran":
+        return np.asfortranarray(a)
+    if v == "strided":                       # every second element of a larger buffer, along every axis
+        big = np.zeros([2 * n for n in a.shape], dtype=a.dtype)
+        sl = tuple(slice(None, None, 2) for _ in a.shape)
+        big[sl] = a
+        return big[sl]
+    if v == "negstride":                     # a reversed view of reversed data
+        sl = tuple(slice(None, None, -1) for _ in a.shape)
+        return a[sl].copy()[sl]
+    if v == "readonly":
+        b = a.copy()
+        b.setflags(write=False)
+        return b
+    if v == "plus0":
+        return a + 0
+    if v == "list":
+        return a.tolist()
+    return a
+
+
 # ------------------------------------------------------------------ the implementation
 def mods():
     core.import_nitime()
@@ -126,14 +154,18 @@ class FFTSpy(object):
 
 def call_corr(d):
     utils = mods()[0]
-    x = desc_arr(d["x"])
-    y = desc_arr(d["y"])
+    v = d.get("v", "plain")
+    x = as_variant(desc_arr(d["x"]), v)
+    y = as_variant(desc_arr(d["y"]), v)
+    x0, y0 = x.copy(), y.copy()
     kw = dict(axis=d["axis"], all_lags=d["al"], normalize=d["nm"])
     fn = d["fn"]
     spy = FFTSpy(utils.fftpack)
     utils.fftpack = spy
     try:
-        if fn == "crosscov":
+        if v == "positional" and fn == "crosscov":
+            r = utils.crosscov(x, y, d["axis"], d["al"], d["db"], d["nm"])
+        elif fn == "crosscov":
             r = utils.crosscov(x, y, debias=d["db"], **kw)
         elif fn == "crosscorr":
             r = utils.crosscorr(x, y, debias=d["db"], **kw)      # debias is documented to be ignored
@@ -143,6 +175,8 @@ def call_corr(d):
             r = utils.autocorr(x, debias=d["db"], **kw)
     finally:
         utils.fftpack = spy._real
+    if not (np.array_equal(x, x0) and np.array_equal(y, y0)):
+        raise AssertionError("the call modified its input array")
     fs = None
     if spy.n and all(isinstance(v, (int, np.integer)) for v in spy.n) and len(set(spy.n)) == 1:
         fs = int(spy.n[0])
@@ -225,16 +259,44 @@ def corr_tol(d):
         my = mx
     single = is_single(x.dtype) or (d["fn"] in ("crosscov", "crosscorr") and is_single(y.dtype))
     r = 5e-4 if single else 1e-9
-    return r, r * (1.0 + N * mx * my)
+    return r, r * N * mx * my + 1e-300        # relative to the data scale, no absolute floor
 
 
 def close(a, b, rtol, atol):
     return abs(a - b) <= atol + rtol * (abs(a) + abs(b))
 
 
+def corr_required_np(d):
+    """the definition through numpy's direct (non-FFT) np.correlate, for long lanes: complex128 values"""
+    x = desc_arr(d["x"])
+    y = desc_arr(d["y"])
+    fn = d["fn"]
+    nd = x.ndim
+    ax = d["axis"] + nd if d["axis"] < 0 else d["axis"]
+    N = x.shape[ax]
+    M = 2 * N - 1 if d["al"] else N
+    X = np.moveaxis(x.astype(np.complex128), ax, -1)
+    Y = X if fn in ("autocov", "autocorr") else np.moveaxis(y.astype(np.complex128), ax, -1)
+    out = np.zeros(X.shape[:-1] + (M,), dtype=np.complex128)
+    for idx in np.ndindex(X.shape[:-1]):
+        lx, ly = X[idx], Y[idx]
+        if d["db"] and fn in ("crosscov", "autocov"):
+            lx = lx - np.sum(lx) / N
+            ly = ly - np.sum(ly) / N
+        c = np.correlate(lx, ly, mode="full")          # c[k] = sum_t lx[t + k - (N-1)] conj(ly[t])
+        if d["nm"]:
+            c = c / N
+        out[idx] = c if d["al"] else c[N - 1:]
+    out = np.moveaxis(out, -1, ax)
+    return [(z.real, z.imag) for z in out.ravel()], M
+
+
 def oracle_corr(d, out):
-    req, M = corr_required(d)
+    N_ax = d["x"]["shape"][d["axis"]]
+    req, M = corr_required(d) if N_ax <= 64 else corr_required_np(d)
     rtol, atol = corr_tol(d)
+    if N_ax > 64:
+        rtol, atol = max(rtol, 1e-8), max(rtol, 1e-8) / rtol * atol
     flat = np.asarray(out).ravel()
     x = desc_arr(d["x"])
     exp_shape = list(x.shape)
@@ -265,7 +327,10 @@ def case_corr(d):
         FN[d["fn"]], nlist(x.shape), zlit(d["axis"]), blit(cx), blit(cy), blit(d["al"]), blit(d["db"]), blit(d["nm"]),
         "None" if fs is None else "(Some %s)" % nlit(fs), flit(rtol), flit(atol), fclist(x), fclist(y), fclist(out))
     rp = {"d": d, "observed": arr_desc(out), "fsize_observed": fs}
-    c = Case(coq, rp, "corr/%s/%s/%dd" % (d["fn"], dclass(x), x.ndim))
+    c = Case(coq, rp, "corr/%s/%s/%dd%s%s" % (
+        d["fn"], dclass(x), x.ndim, "/oracle-only-long" if d.get("oracle_only") else "",
+        "/" + d["v"] if d.get("v", "plain") != "plain" else ""))
+    c.skip_k = bool(d.get("oracle_only"))
     c.nclass = "N=" + sizeclass(x.shape[d["axis"]]) + ("/all_lags" if d["al"] else "") + ("/debias" if d["db"] else "") + ("/normalize" if d["nm"] else "")
     c.out = out
     return c
@@ -278,7 +343,26 @@ def sizeclass(n):
     return ("pow2" if p2 else ("odd" if n % 2 else "even")) + ("<=16" if n <= 16 else ">16")
 
 
-def gen_values(rng, shape, dtype):
+SCALES = [0, 0, 0, 0, 0, 0, -60, -45, -30, -12, 10, 25, 40]     # data are multiplied by 2**s (exactly)
+
+
+def pick_scale(rng, dtype):
+    s = rng.choice(SCALES)
+    if dtype in ("float32", "complex64"):
+        s = max(-20, min(20, s))
+    if dtype == "int64":
+        s = max(0, min(20, s))
+    return s
+
+
+def gen_values(rng, shape, dtype, scale=0):
+    a = gen_values0(rng, shape, dtype)
+    if scale:
+        a = (a * (2 ** scale if dtype == "int64" else 2.0 ** scale)).astype(dtype)
+    return a
+
+
+def gen_values0(rng, shape, dtype):
     n = int(np.prod(shape))
     r = rng.random()
     if dtype == "int64":
@@ -318,10 +402,34 @@ def gen_corr(rng, maxn, force_n=None):
     dx = rng.choice(dts)
     dy = dx if rng.random() < 0.7 else rng.choice(dts)
     fn = rng.choice(["crosscov", "crosscov", "crosscorr", "autocov", "autocorr"])
-    x = gen_values(rng, shape, dx)
-    y = gen_values(rng, shape, dy)
+    x = gen_values(rng, shape, dx, pick_scale(rng, dx))
+    y = gen_values(rng, shape, dy, pick_scale(rng, dy))
     return {"k": "corr", "fn": fn, "axis": axis, "al": rng.random() < 0.5, "db": rng.random() < 0.5,
-            "nm": rng.random() < 0.5, "x": arr_desc(x), "y": arr_desc(y)}
+            "nm": rng.random() < 0.5, "x": arr_desc(x), "y": arr_desc(y), "v": rng.choice(ARRAY_VARIANTS)}
+
+
+BIG_N = [65, 127, 128, 129, 255, 256, 257, 383, 509, 511, 512]
+
+
+def gen_corr_big(rng, N, oracle_only=True):
+    """long lanes up to the stated maximum 512: checked by the independent direct-sum oracle only
+    (exact Q evaluation of a 512-lane is too slow); with small integer data also by K"""
+    nd = rng.choice([1, 1, 2, 3])
+    shape = [rng.randint(1, 2) for _ in range(nd)]
+    ax = rng.randrange(nd)
+    shape[ax] = N
+    axis = ax if rng.random() < 0.5 else ax - nd
+    if oracle_only:
+        dx = rng.choice(["float64", "complex128", "float64", "complex128", "float32", "complex64", "int64"])
+        x = gen_values(rng, shape, dx, pick_scale(rng, dx))
+        y = gen_values(rng, shape, dx, pick_scale(rng, dx))
+    else:
+        shape, axis = [N], 0
+        x = gen_values(rng, shape, "int64")
+        y = gen_values(rng, shape, "int64")
+    return {"k": "corr", "fn": rng.choice(["crosscov", "crosscorr", "autocov", "autocorr"]), "axis": axis,
+            "al": rng.random() < 0.5, "db": (rng.random() < 0.5) if oracle_only else False, "nm": rng.random() < 0.5,
+            "x": arr_desc(x), "y": arr_desc(y), "v": rng.choice(ARRAY_VARIANTS), "oracle_only": oracle_only}
 
 
 # ---- seed_corrcoef
@@ -329,7 +437,8 @@ def case_seed(d):
     corr = mods()[2]
     seed = desc_arr(d["seed"])
     target = desc_arr(d["target"])
-    out = np.atleast_1d(np.asarray(corr.seed_corrcoef(seed, target)))
+    v = d.get("v", "plain")
+    out = np.atleast_1d(np.asarray(corr.seed_corrcoef(as_variant(seed, v), as_variant(target, v))))
     N = len(seed)
     rows = target.reshape(-1, N)
     coq = "(KSeed %s %s %s %s)" % (nlit(N), fl(seed), llit([fl(r) for r in rows]), fl(out))
@@ -365,9 +474,10 @@ def oracle_seed(d, out):
     return None
 
 
-def gen_seed(rng, maxn):
-    N = rng.choice([2, 3, 4, 5, 8, rng.randint(2, maxn), rng.randint(2, maxn)])
+def gen_seed(rng, maxn, N=None):
+    N = N or rng.choice([2, 3, 4, 5, 8, rng.randint(2, maxn), rng.randint(2, maxn)])
     rows = rng.randint(1, 4)
+    sc = pick_scale(rng, "float64")
     seed = gen_values(rng, [N], "float64")
     if np.ptp(seed) == 0:
         seed[0] += 1.0
@@ -379,7 +489,9 @@ def gen_seed(rng, maxn):
             r[-1] += 0.5
     if rng.random() < 0.3:
         t2[0] = seed * rng.choice([2.0, -0.5]) + 1.0      # |r| = 1
-    return {"k": "seed", "seed": arr_desc(seed), "target": arr_desc(t2.reshape(tshape))}
+    sc2 = pick_scale(rng, "float64")
+    return {"k": "seed", "seed": arr_desc(seed * 2.0 ** sc), "target": arr_desc(t2.reshape(tshape) * 2.0 ** sc2),
+            "v": rng.choice(["plain", "plain", "fortran", "strided", "negstride", "readonly", "plus0", "list"])}
 
 
 # ---- zscore / percent_change
@@ -390,7 +502,11 @@ def norm_tol(x):
 def case_zscore(d):
     utils = mods()[0]
     x = desc_arr(d["x"])
-    out = np.asarray(utils.zscore(x, axis=d["axis"]))
+    v = d.get("v", "plain")
+    xv = as_variant(x, v)
+    out = np.asarray(utils.zscore(xv, d["axis"]) if v == "positional" else utils.zscore(xv, axis=d["axis"]))
+    if not np.array_equal(np.asarray(xv), x):
+        raise AssertionError("zscore modified its input")
     stds = np.std(x, axis=d["axis"])          # the library kernel, called separately
     rtol, atol = 1e-9, 1e-9 * (1.0 + math.sqrt(x.shape[d["axis"]]))
     coq = "(KZscore %s %s %s %s %s %s %s)" % (nlist(x.shape), zlit(d["axis"]), flit(rtol), flit(atol), fclist(x), fl(stds), fclist(out))
@@ -421,7 +537,11 @@ def oracle_zscore(d, out):
 def case_pct(d):
     utils = mods()[0]
     x = desc_arr(d["x"])
-    out = np.asarray(utils.percent_change(x, ax=d["axis"]))
+    v = d.get("v", "plain")
+    xv = as_variant(x, v)
+    out = np.asarray(utils.percent_change(xv, d["axis"]) if v == "positional" else utils.percent_change(xv, ax=d["axis"]))
+    if not np.array_equal(np.asarray(xv), x):
+        raise AssertionError("percent_change modified its input")
     m = np.mean(x, d["axis"])
     scale = float(np.max(np.abs(x))) / float(np.min(np.abs(m)))
     rtol, atol = 1e-9, 1e-7 * (1.0 + scale)
@@ -451,8 +571,10 @@ def oracle_pct(d, out):
     return None
 
 
-def gen_norm(rng, maxn, which):
+def gen_norm(rng, maxn, which, N=None):
     shape, axis = gen_shape(rng, maxn)
+    if N:
+        shape[axis] = N
     dt = rng.choice(["float64", "float64", "complex128", "int64"])
     x = gen_values(rng, shape, dt)
     # lanes must not be constant (zscore) / have zero mean (percent change): the guards of the theorems
@@ -465,13 +587,15 @@ def gen_norm(rng, maxn, which):
             lane[0] += 1
         if which == "pct" and abs(np.mean(lane)) < 0.25:
             lane += 2 if dt == "int64" else 2.5
-    return {"k": which, "axis": axis, "x": arr_desc(x)}
+    sc = pick_scale(rng, dt)
+    x = (x * (2 ** sc if dt == "int64" else 2.0 ** sc)).astype(dt)      # exact: offsets and spreads scale together
+    return {"k": which, "axis": axis, "x": arr_desc(x), "v": rng.choice(ARRAY_VARIANTS + ["list"])}
 
 
 # ---- analyzer
 def call_xcorr(d, norm):
     _, _, _, _, ts, CA = mods()
-    data = desc_arr(d["data"])
+    data = as_variant(desc_arr(d["data"]), d.get("v", "plain"))
     T = ts.TimeSeries(data, sampling_interval=d.get("dt", 1.0))
     C = CA(T)
     r = C.xcorr_norm if norm else C.xcorr
@@ -487,9 +611,11 @@ def case_xcorr(d):
     rows = out.reshape(nch * nch, -1)
     if norm:
         cc = np.corrcoef(data)
-        coq = "(KXcorrNorm %s %s %s %s %s)" % (nlit(nch), nlit(N), llit([fl(r) for r in lib]), fl(cc), llit([fl(r) for r in rows]))
+        atol = 1e-9                           # normalised values are O(1) whatever the data scale
+        coq = "(KXcorrNorm %s %s %s %s %s %s)" % (nlit(nch), nlit(N), flit(atol), llit([fl(r) for r in lib]), fl(cc), llit([fl(r) for r in rows]))
     else:
-        coq = "(KXcorr %s %s %s %s)" % (nlit(nch), nlit(N), llit([fl(r) for r in lib]), llit([fl(r) for r in rows]))
+        atol = 1e-9 * N * float(np.max(np.abs(data))) ** 2      # relative to the data scale
+        coq = "(KXcorr %s %s %s %s %s)" % (nlit(nch), nlit(N), flit(atol), llit([fl(r) for r in lib]), llit([fl(r) for r in rows]))
     c = Case(coq, {"d": d, "observed": arr_desc(out)}, "%s/nch=%d" % (d["k"], nch))
     c.out = out
     return c
@@ -506,11 +632,13 @@ def oracle_xcorr(d, out):
     fx = [[(fr(v), F(0)) for v in data[p]] for p in range(nch)]
     name = "CorrelationAnalyzer.%s" % d["k"]
     if not norm:
-        scale = 1.0 + N * float(np.max(np.abs(data))) ** 2
+        scale = N * float(np.max(np.abs(data))) ** 2
+        big = N > 64
         for p in range(nch):
             for q in range(nch):
+                ref = np.correlate(data[p], data[q], mode="full") if big else None
                 for k in range(2 * N - 1):
-                    want = float(lagged(fx[p], fx[q], N, k - (N - 1))[0])
+                    want = float(ref[k]) if big else float(lagged(fx[p], fx[q], N, k - (N - 1))[0])
                     if not close(float(out[p, q, k]), want, 1e-9, 1e-9 * scale):
                         key = "C20/%s/%s" % (name, "lower-triangle-not-lag-reversed" if p > q else "upper-triangle")
                         fails.append(Fail(key, "xcorr[%d,%d] at index %d (lag %d) is not sum_t x%d[t+lag] x%d[t]%s" % (
@@ -543,16 +671,18 @@ def oracle_xcorr(d, out):
     return fails
 
 
-def gen_xcorr(rng, maxn, which):
-    nch = rng.randint(2, 4)
-    N = rng.choice([2, 3, 4, 5, 8, rng.randint(2, maxn)])
+def gen_xcorr(rng, maxn, which, N=None):
+    nch = rng.randint(2, 4) if not N else 2
+    N = N or rng.choice([2, 3, 4, 5, 8, rng.randint(2, maxn)])
     data = gen_values(rng, [nch, N], "float64")
     for r in data:
         if np.ptp(r) == 0:
             r[0] += 1.0
     if which == "xcorr_norm":
         data = data + 3.0      # keeps the entries the code divides by away from zero
-    return {"k": which, "data": arr_desc(data), "dt": rng.choice([1.0, 0.5, 2.0])}
+    data = data * 2.0 ** pick_scale(rng, "float64")
+    return {"k": which, "data": arr_desc(data), "dt": rng.choice([1.0, 0.5, 2.0]),
+            "v": rng.choice(["plain", "plain", "fortran", "strided", "negstride", "readonly", "plus0"])}
 
 
 # ---- correlation_spectrum
@@ -561,7 +691,8 @@ def case_corrspec(d):
     from scipy import fftpack
     x1 = desc_arr(d["x1"])
     x2 = desc_arr(d["x2"])
-    f, ccn = cohere.correlation_spectrum(x1, x2, norm=d["norm"])
+    v = d.get("v", "plain")
+    f, ccn = cohere.correlation_spectrum(as_variant(x1, v), as_variant(x2, v), norm=d["norm"])
     X1 = fftpack.fft(x1 - np.mean(x1))
     X2 = fftpack.fft(x2 - np.mean(x2))
     n = len(x1)
@@ -590,20 +721,37 @@ def oracle_corrspec(d, out):
     return None
 
 
-def gen_corrspec(rng, maxn):
-    n = rng.choice([2, 3, 4, 5, 8, 9, rng.randint(2, maxn), rng.randint(2, maxn)])
+def gen_corrspec(rng, maxn, n=None):
+    n = n or rng.choice([2, 3, 4, 5, 8, 9, rng.randint(2, maxn), rng.randint(2, maxn)])
     x1 = gen_values(rng, [n], "float64")
     x2 = gen_values(rng, [n], "float64") + 0.5 * x1
     for x in (x1, x2):
         if np.ptp(x) == 0:
             x[0] += 1.0
-    return {"k": "corrspec", "norm": rng.random() < 0.4, "x1": arr_desc(x1), "x2": arr_desc(x2)}
+    return {"k": "corrspec", "norm": rng.random() < 0.4, "x1": arr_desc(x1 * 2.0 ** pick_scale(rng, "float64")),
+            "x2": arr_desc(x2 * 2.0 ** pick_scale(rng, "float64")),
+            "v": rng.choice(["plain", "plain", "strided", "negstride", "readonly", "plus0"])}
 
 
 # ---- entropy family
-def ent_call(kind, xs, lag):
+ENT_VARIANTS = ["int64", "int64", "int32", "int8", "float64", "list", "tuple", "strided", "readonly"]
+
+
+def ent_input(x, v):
+    if v == "list":
+        return list(x)
+    if v == "tuple":
+        return tuple(x)
+    if v in ("int32", "int8", "float64"):
+        return np.array(x, dtype=v)
+    if v in ("strided", "readonly"):
+        return as_variant(np.array(x, dtype=np.int64), v)
+    return np.array(x, dtype=np.int64)
+
+
+def ent_call(kind, xs, lag, v="int64"):
     ent = mods()[1]
-    a = [np.array(x, dtype=np.int64) for x in xs]
+    a = [ent_input(x, v) for x in xs]
     if kind == "entropy":
         return float(ent.entropy(*a))
     if kind == "cond":
@@ -618,7 +766,7 @@ def ent_call(kind, xs, lag):
 def case_ent(d):
     xs = d["xs"]
     n = len(xs[0])
-    out = ent_call(d["kind"], xs, d["lag"])
+    out = ent_call(d["kind"], xs, d["lag"], d.get("v", "int64"))
     # the library kernel, called separately on the same probabilities p = k/n
     tab = [0.0] + [float(np.log2(np.mean(np.array([True] * k + [False] * (n - k))))) for k in range(1, n + 1)]
     coq = "(KEnt %s %s %s %s %s)" % (EK[d["kind"]], llit([llit([zlit(v) for v in x]) for x in xs]), nlit(d["lag"]), fl(tab), flit(out))
@@ -715,7 +863,7 @@ def oracle_ent(d, out, rng):
 def gen_ent(rng, maxlen):
     kind = rng.choice(["entropy", "entropy", "cond", "mi", "mi", "cc", "te", "te"])
     nv = rng.choice([1, 1, 2, 3]) if kind == "entropy" else 2
-    n = rng.choice([2, 3, 4, 5, 8, rng.randint(2, maxlen), rng.randint(2, maxlen)])
+    n = rng.choice([2, 3, 4, 5, 8, rng.randint(2, maxlen), rng.randint(2, maxlen), rng.choice([127, 128, 129, 199, 200])])
     xs = []
     for v in range(nv):
         a = rng.randint(1, 6)
@@ -731,7 +879,8 @@ def gen_ent(rng, maxlen):
         else:
             x = [rng.choice(syms) for _ in range(n)]
         xs.append(x)
-    return {"k": "ent", "kind": kind, "xs": xs, "lag": rng.randint(1, 5) if kind == "te" else 0}
+    return {"k": "ent", "kind": kind, "xs": xs, "lag": rng.randint(1, 5) if kind == "te" else 0,
+            "v": rng.choice(ENT_VARIANTS)}
 
 
 # ------------------------------------------------------------------ dispatch
@@ -792,9 +941,9 @@ def run(ctx):
     rng = ctx.rng
     maxn = ctx.scale(40, 64)
     ds = corpus_cases()
-    plan = [("corr", ctx.scale(170, 1500)), ("seed", ctx.scale(40, 300)), ("zscore", ctx.scale(45, 300)),
+    plan = [("corr", ctx.scale(140, 1500)), ("seed", ctx.scale(40, 300)), ("zscore", ctx.scale(45, 300)),
             ("pct", ctx.scale(45, 300)), ("xcorr", ctx.scale(30, 200)), ("xcorr_norm", ctx.scale(30, 200)),
-            ("corrspec", ctx.scale(40, 300)), ("ent", ctx.scale(260, 2500))]
+            ("corrspec", ctx.scale(40, 300)), ("ent", ctx.scale(230, 2500))]
     for kind, n in plan:
         for _ in range(n):
             if kind == "corr":
@@ -810,8 +959,23 @@ def run(ctx):
             else:
                 ds.append(gen_ent(rng, ctx.scale(80, 200)))
     if not ctx.quick:
-        for N in (96, 100, 127, 128):  # a few long lanes (the theorems, not K, carry the large sizes)
+        for N in (96, 100, 127, 128):  # a few long lanes in K (the theorems carry the large sizes)
             ds.append(gen_corr(rng, maxn, force_n=N))
+    # the whole range of the quantifier (lengths to 512, just above / below powers of two, primes):
+    # the independent direct-sum oracle on every size, K on small-integer data and on the cheap kinds
+    for rep in range(ctx.scale(1, 6)):
+        for N in BIG_N + [512, 512]:
+            ds.append(gen_corr_big(rng, N, oracle_only=True))
+    for N in ctx.scale([129], [129, 257]):
+        ds.append(gen_corr_big(rng, N, oracle_only=False))
+    for rep in range(ctx.scale(1, 4)):
+        for N in (257, 512):
+            ds.append(gen_seed(rng, maxn, N=N))
+            ds.append(gen_norm(rng, maxn, "zscore", N=N + rep))
+            ds.append(gen_norm(rng, maxn, "pct", N=N - rep))
+            ds.append(gen_xcorr(rng, maxn, "xcorr", N=N))
+            ds.append(gen_xcorr(rng, maxn, "xcorr_norm", N=N - 1))
+            ds.append(gen_corrspec(rng, maxn, n=N - rep))
     rng.shuffle(ds)                    # balance the shards
     import time as _t
     t0 = _t.time()
@@ -861,7 +1025,11 @@ def run(ctx):
                          "float64/complex128/int64/float32/complex64, all flag combinations, lengths 2..%d of every parity and "
                          "around powers of two; seed_corrcoef; zscore/percent_change along every axis; CorrelationAnalyzer "
                          "xcorr/xcorr_norm with 2..4 channels; correlation_spectrum; entropy family over alphabets 1..6, "
-                         "1..3 variables, lags 1..5; non-trivial = the call returned finite values" % maxn)
+                         "1..3 variables, lags 1..5, lengths to 200; data scaled by 2^-60..2^40 (tolerances relative to the data "
+                         "scale); inputs also as Fortran-ordered / strided / negative-stride / read-only / derived (a+0) arrays, "
+                         "lists, positional arguments; long lanes 65..512 (around powers of two, primes, the maximum) through the "
+                         "independent numpy direct-sum oracle and, for the cheap kinds and integer data, through K; "
+                         "non-trivial = the call returned finite values" % maxn)
     return ctx.finish(
         trusted=["library kernels called separately and handed to the model as data: np.correlate, np.corrcoef, np.std, "
                  "scipy.fftpack.fft (correlation_spectrum), np.log2; scipy.fftpack fft/ifft inside fftconvolve are represented "
